@@ -422,20 +422,30 @@ PIN_SRC = ('    .text\n    .globl _start\n_start:\n    mov $60, %eax\n    xor %e
            '    .section .note.GNU-stack,"",@progbits\n')
 
 
-def pinned(ctx):
-    o = tools.assemble(ctx, PIN_SRC)
-    d = ctx.scratch.dir("pinned")
-    base = ["-pie", "--no-gc-sections"]
+PIN_IFUNC_SRC = ('    .text\n    .globl _start\n_start:\n    .type ifn,@gnu_indirect_function\nifn:\n    lea ifn(%rip), %rax\n    ret\n'
+                 '    .section .note.GNU-stack,"",@progbits\n')
+PINS = [
+    # align-1 section at an odd address holding `.quad _start`: allocation looks at the offset, the writer at the address
+    ("odd-relr", PIN_SRC, ["-pie", "--no-gc-sections"], ["-z pack-relative-relocs"]),
+    # a local ifunc: --got-plt-syms allocates .symtab entries that -s (strip-all) then never writes
+    ("ifunc-gotpltsyms-strip", PIN_IFUNC_SRC, ["--no-gc-sections"], ["--got-plt-syms", "-s"]),
+]
 
-    def link(linker, opts):
-        out = tools.fresh(os.path.join(d, f"out-{linker}-{len(opts)}"))
-        return tools.link(linker, [*base, *args_for(1 if linker == "wild" else 2, opts, None, False), o, "-o", out])
-    opts = ["-z pack-relative-relocs"]
+
+def pinned(ctx, which):
+    name, src, base, opts = PINS[which]
+    o = tools.assemble(ctx, src)
+    d = ctx.scratch.dir("pinned", name)
+    cnt = itertools.count(1)
+
+    def link(linker, oo):
+        out = tools.fresh(os.path.join(d, f"out-{linker}-{next(cnt)}"))
+        return tools.link(linker, [*base, *args_for(1 if linker == "wild" else 2, oo, None, False), o, "-o", out])
     w = link("wild", opts)
-    record(ctx, "asm", "pie", opts, lambda oo: (lambda x: (not x.ok) and pc.alloc_error(x.errtext()) is not None)(link("wild", oo)), w,
-           lambda: link("ld", opts).ok, "pinned-odd-relr",
-           lambda: {"in0.s": PIN_SRC, "in0.o": o, "commands.txt": "wild -pie --no-gc-sections -z pack-relative-relocs in0.o -o out\n"},
-           fp="pinned:odd-relr", extra_desc="pinned reproducer: align-1 section at an odd address holding `.quad _start`")
+    record(ctx, "asm", "pinned", opts, lambda oo: (lambda x: (not x.ok) and pc.alloc_error(x.errtext()) is not None)(link("wild", oo)), w,
+           lambda: link("ld", opts).ok, "pinned-" + name,
+           lambda: {"in0.s": src, "in0.o": o, "commands.txt": "wild " + " ".join(base + args_for(1, opts, None, False)) + " in0.o -o out\n"},
+           fp="pinned:" + name, extra_desc="pinned reproducer " + name)
 
 
 def main(ctx):
@@ -448,14 +458,17 @@ def main(ctx):
                        "only wild's own accounting messages count; other wild rejections are recorded and inconclusive"]
     tools.wild()
     na, nb = ctx.pick(14, 100), ctx.pick(260, 3500)
-    jobs = [("pin", 0)] + [("A", i) for i in range(na)] + [("B", i) for i in range(nb)]
+    jobs = [("pin", k) for k in range(len(PINS))] + [("A", i) for i in range(na)] + [("B", i) for i in range(nb)]
     if ctx.replay is not None:
         c = str(ctx.replay.get("case"))
-        jobs = [("pin", 0)] if c.startswith("pinned") else [(c[0], int(c[1:].split(".")[0]))]
+        if c.startswith("pinned-"):
+            jobs = [("pin", k) for k, pn in enumerate(PINS) if pn[0] == c[len("pinned-"):]]
+        else:
+            jobs = [(c[0], int(c[1:].split(".")[0]))]
 
     def go(j):
         if j[0] == "pin":
-            pinned(ctx)
+            pinned(ctx, j[1])
         elif j[0] == "A":
             prog_case(ctx, j[1])
         else:
